@@ -412,6 +412,19 @@ Theorem C03_exit_decisions_are_the_sources : forall Hb matches C hs is_diff (t :
 Proof. exact verify_core_exit_is_source. Qed.
 Print Assumptions C03_exit_decisions_are_the_sources.
 
+(* ... and so is create's (folder mode): unless the run aborts, its exit code is the translated tail of
+   commands.create_for_folder_subcommand (test_for_missing_files, the failed-verification override, `if exception: raise`,
+   then the check for vanished nested history folders) applied to what the run reports missing, to the number of failed
+   comparisons -- the failed formats of every visited file -- and to whether a loaded nested history's folder is gone *)
+Theorem C03_create_exit_decision_is_the_sources : forall Hb matches C cdig ser (t : node C) req no_dh dr ip ifl hs, load C cdig t = inl hs ->
+  let o := snd (create_folder Hb matches C cdig ser t req no_dh dr ip ifl) in
+  let spec := set_patterns (latest_patterns (lh_gens (root_hist hs))) ip (pattern_file_lines ifl) in
+  let fails := list_sum (map (file_failures Hb hs (sort_fmts req)) (ev_files (events matches C spec [] t))) in
+  o_outcome o = Abort \/
+  o_outcome o = Exit (src_create_exit (negb (is_nil (o_missing o))) false false 0 fails (negb (is_nil (missing_history_folders C hs t)))).
+Proof. exact create_exit_is_source. Qed.
+Print Assumptions C03_create_exit_decision_is_the_sources.
+
 (* the tie of the two counting rules to the source (regenerated on every run from commands.py by translator/gen.py):
    create -sf counts one failure per sealed file, decided by the first requested format's verdict (Model/Create.v
    seal_file, Model/Commands.v sf_step); create in folder mode counts one per failed format of every sealed file
